@@ -60,7 +60,7 @@ func (f *FnEnc) doCall(x ssa.Value, c *ssa.CallCommon) {
 	f.oblige("safe", "nilfunc", f.autoTags(), fmt.Sprintf("(not (= %s 0))", fv.T), "")
 	key, ok := f.fnKeys[c.Value]
 	if !ok {
-		key = "functype:" + f.e.reg.shortTypeName(c.Value.Type())
+		key = "functype:" + strings.ReplaceAll(f.e.reg.shortTypeName(c.Value.Type()), " ", "_")
 	}
 	if strings.HasPrefix(key, "param:") {
 		key = "param:" + f.name + "." + strings.TrimPrefix(key, "param:")
@@ -483,6 +483,11 @@ func isNilSliceConst(v ssa.Value) bool {
 func (f *FnEnc) doGo(x *ssa.Go) {
 	// the spawned body is verified separately as a sequential function; here the start is a ghost event
 	f.chanHook("go", "0", &x.Call)
+	if cl, ok := x.Call.Value.(*ssa.MakeClosure); ok {
+		f.checkClosurePre(cl, "go")
+	} else if cl, ok := f.clos[x.Call.Value]; ok {
+		f.checkClosurePre(cl, "go")
+	}
 }
 
 func (f *FnEnc) doDefer(x *ssa.Defer) {
@@ -499,6 +504,50 @@ func (f *FnEnc) doRunDefers() {
 func (f *FnEnc) doSend(x *ssa.Send) {
 	f.chanHook("send", f.val(x.Chan).T, nil)
 	_ = f.val(x.X)
+	// a closure handed to another goroutine: its preconditions must hold where it is queued
+	if cl, ok := f.clos[x.X]; ok {
+		f.checkClosurePre(cl, "queued")
+	}
+}
+
+// checkClosurePre emits the preconditions of a closure's contract at the point where the closure
+// is created and handed over (sent on a channel or started with go).
+func (f *FnEnc) checkClosurePre(cl *ssa.MakeClosure, how string) {
+	fn := cl.Fn.(*ssa.Function)
+	name := relFuncName(fn, f.e.pkg)
+	ct := f.e.cs.ByName[name]
+	if ct == nil {
+		return
+	}
+	env := map[string]string{}
+	for i, fv := range fn.FreeVars {
+		env[fv.Name()] = f.val(cl.Bindings[i]).T
+	}
+	env["W"] = f.st.comps["W"]
+	env["W0"] = f.st.comps["W"]
+	for _, r := range ct.Requires {
+		tags := r.Tags
+		if len(tags) == 0 {
+			tags = ct.Tags
+		}
+		if len(f.e.unresolved(r.Expr, mergeEnv(env, map[string]string{"H": "", "H0": ""}))) > 0 {
+			continue // speaks about the closure's own parameters
+		}
+		e2 := mergeEnv(env, map[string]string{"H": "@", "H0": "@"})
+		goal := f.evalWithStates(r.Expr, e2, map[string]*State{"H": f.st, "H0": f.st})
+		f.oblige("pre", name+"."+r.Label+"@"+how, tags, goal, "")
+	}
+}
+
+func mergeEnv(a, b map[string]string) map[string]string {
+	out := make(map[string]string, len(a)+len(b))
+	for k, v := range a {
+		out[k] = v
+	}
+	for k, v := range b {
+		out[k] = v
+	}
+	return out
 }
 
 func (f *FnEnc) doRecv(x *ssa.UnOp) {
